@@ -518,6 +518,92 @@ func mapXY(n *lib.Node, s, kx, ky, tx, ty float64) *lib.Node {
 	return m
 }
 
+// nearRow builds valid float polygons with a control point a few ulps away from the centre row of
+// the envelope, reached by two steep edges: the two crossings of the bisector next to that point
+// are closer together than the spacing of float64 and may round to the same abscissa.
+func (g *gen) nearRow() (*lib.Node, string) {
+	r := g.r
+	W := float64(r.Range(4, 40))
+	H := float64(2 * r.Range(1, 20))
+	ox, oy := float64(r.Range(-50, 50)), float64(r.Range(-50, 50))
+	m := oy + H/2
+	c := ox + W/2 + float64(r.Range(-1, 1))*W/8
+	w := []float64{0.5, 0.1, 0.01, 1.0 / 3, 1}[r.Intn(5)] * W / 8
+	y := m
+	up := r.Bool()
+	for k := r.Range(1, 3); k > 0; k-- {
+		if up {
+			y = math.Nextafter(y, math.Inf(1))
+		} else {
+			y = math.Nextafter(y, math.Inf(-1))
+		}
+	}
+	f := func(pts ...[2]float64) *lib.Node {
+		n := &lib.Node{Kind: lib.KLine, CT: g.ct}
+		for _, p := range append(pts, pts[0]) {
+			n.C = append(n.C, [4]float64{p[0], p[1], float64(r.Range(-9, 9)), float64(r.Range(-9, 9))})
+		}
+		return n
+	}
+	poly := &lib.Node{Kind: lib.KPoly, CT: g.ct}
+	kind := ""
+	switch r.Intn(3) {
+	case 0: // spike from the bottom edge
+		poly.Kids = []*lib.Node{f([2]float64{ox, oy}, [2]float64{c - w, oy}, [2]float64{c, y}, [2]float64{c + w, oy},
+			[2]float64{ox + W, oy}, [2]float64{ox + W, oy + H}, [2]float64{ox, oy + H})}
+		kind = "spike"
+	case 1: // notch from the top edge
+		poly.Kids = []*lib.Node{f([2]float64{ox, oy}, [2]float64{ox + W, oy}, [2]float64{ox + W, oy + H}, [2]float64{c + w, oy + H},
+			[2]float64{c, y}, [2]float64{c - w, oy + H}, [2]float64{ox, oy + H})}
+		kind = "notch"
+	default: // triangular hole with its apex next to the row
+		base := oy + H/4
+		if !up && r.Bool() {
+			base = oy + 3*H/4
+		}
+		poly.Kids = []*lib.Node{f([2]float64{ox, oy}, [2]float64{ox + W, oy}, [2]float64{ox + W, oy + H}, [2]float64{ox, oy + H}),
+			f([2]float64{c - w, base}, [2]float64{c + w, base}, [2]float64{c, y})}
+		kind = "hole"
+	}
+	if up {
+		kind += "_above"
+	} else {
+		kind += "_below"
+	}
+	return poly, kind
+}
+
+// sliver builds valid polygons at magnitude 1e16 (float64 spacing 2) that are thinner than the
+// spacing along the bisector: both crossings round to the same abscissa. Wrapped as Polygon,
+// MultiPolygon or a collection. Only the emptiness and "intersects" clauses are judged on them.
+func (g *gen) sliver() (*lib.Node, string) {
+	r := g.r
+	tri := func() *lib.Node {
+		x0 := 1e16 + 2*float64(r.Range(0, 500))
+		y0 := float64(r.Range(-3, 3))
+		n := &lib.Node{Kind: lib.KLine, CT: g.ct}
+		pts := [][2]float64{{x0 + 10, y0 + 2}, {x0 + 4, y0}, {x0 + 8, y0}}
+		if r.Bool() {
+			pts = [][2]float64{{x0 + 6, y0}, {x0 + 10, y0}, {x0 + 4, y0 + 2}}
+		}
+		for _, p := range append(pts, pts[0]) {
+			n.C = append(n.C, [4]float64{p[0], p[1], float64(r.Range(-9, 9)), float64(r.Range(-9, 9))})
+		}
+		return &lib.Node{Kind: lib.KPoly, CT: g.ct, Kids: []*lib.Node{n}}
+	}
+	switch r.Intn(4) {
+	case 0:
+		return tri(), "polygon"
+	case 1:
+		return &lib.Node{Kind: lib.KMPoly, CT: g.ct, Kids: []*lib.Node{tri()}}, "multipolygon1"
+	case 2:
+		return &lib.Node{Kind: lib.KMPoly, CT: g.ct, Kids: []*lib.Node{g.emptyNode(lib.KPoly), tri()}}, "multipolygon_with_empty"
+	default:
+		return &lib.Node{Kind: lib.KColl, CT: g.ct, Kids: []*lib.Node{
+			{Kind: lib.KMPoly, CT: g.ct, Kids: []*lib.Node{tri()}}, g.pointNode(P{r.Range(-5, 5), r.Range(-5, 5)})}}, "collection"
+	}
+}
+
 // ---------------------------------------------------------------- observations
 
 func bits(f float64) string { return fmt.Sprintf("%016x", math.Float64bits(f)) }
@@ -661,6 +747,22 @@ func main() {
 				class = "anytype"
 			}
 		default: // non-lattice image of a lattice geometry (general-position floats)
+			if r.Chance(1, 8) { // thinner than the float spacing along the bisector
+				var s string
+				n, s = g.sliver()
+				class = "floats_sliver"
+				sub["sliver_"+s]++
+				flags = "float,sliver"
+				break
+			}
+			if r.Chance(1, 4) { // floats with a control point a few ulps off the centre row
+				var s string
+				n, s = g.nearRow()
+				class = "floats_near_row"
+				sub["near_row_"+s]++
+				flags = "float"
+				break
+			}
 			base := g.leaf([]int{1, 2, 2, 2, 4, 5}[r.Intn(6)], o)
 			if r.Chance(1, 4) {
 				base = g.coll(o, 1)
